@@ -352,7 +352,7 @@ func c04R2(c *Ctx, p *Prog, rule string) {
 		}
 		c.Fail(rule, name+"#placement-change", fn.Pos(), "%s changes the placement through addPiece/removePiece but is neither MakeMove nor UndoMove: the hash history is not updated", name)
 	}
-	c.Floor(rule, total, 11, "addPiece/removePiece calls feeding the hash")
+	c.Floor(rule, total, 3, "addPiece/removePiece calls feeding the hash")
 }
 
 // c04R5: Zobrist tables written only during initialisation.
@@ -427,6 +427,13 @@ func c04R3(c *Ctx, p *Prog, rule string) {
 		terms := collectXorTerms(apps[0].Val)
 		byKind := map[string][]hashTerm{}
 		for _, t := range terms {
+			if t.Kind == "unknown" {
+				if call, ok := t.Val.(*ssa.Call); ok {
+					if callee := call.Call.StaticCallee(); callee != nil && isOwn(callee) && relPkg(fnPkgPath(callee)) == "board" && callee.Blocks != nil {
+						t.Kind = "unknown-call"
+					}
+				}
+			}
 			byKind[t.Kind] = append(byKind[t.Kind], t)
 			if t.Kind == "unknown" {
 				c.Undec(rule, spec+"#term", t.Val.Pos(), "unrecognised term %s in the appended hash: not a Zobrist table entry, piece delta or the previous hash", t.Val)
@@ -481,46 +488,42 @@ func c04R3(c *Ctx, p *Prog, rule string) {
 				c.Check(dok, rule, spec+"#castling-delta", st.Pos(), "castling delta is (old rights) xor NewCastles(m)")
 				n := arrayLenOfGlobal(p, "board.castlingRand")
 				seen := map[int64]bool{}
-				for _, t := range byKind["castling"] {
-					if len(t.Idx) != 1 {
-						c.Undec(rule, spec+"#castling-term", t.Val.Pos(), "castlingRand term with %d indices", len(t.Idx))
-						continue
-					}
-					i, isc := constOf(t.Idx[0])
-					if !isc {
-						c.Undec(rule, spec+"#castling-term", t.Val.Pos(), "castlingRand index is not constant")
-						continue
-					}
-					var w, bit ssa.Value
-					found := false
-					if t.Enable != nil {
-						w, bit, found = bitTest(t.Enable)
-					} else if t.Xor != nil {
-						for _, ce := range controllingConds(t.Xor.Block()) {
-							if !ce.True {
-								continue
-							}
-							if ww, bb, ok := bitTest(ce.Cond); ok {
-								w, bit, found = ww, bb, true
-							}
+				castlingTerms(c, p, rule, spec, byKind["castling"], delta, app, n, seen, 0)
+				// helpers: a term that is a call to a board function returning the accumulated keys for a delta
+				for _, t := range byKind["unknown-call"] {
+					call := t.Val.(*ssa.Call)
+					callee := call.Call.StaticCallee()
+					var dparam ssa.Value
+					for i, a := range call.Call.Args {
+						if sameValue(stripConv(a), delta, 0) && i < len(callee.Params) {
+							dparam = callee.Params[i]
 						}
 					}
-					key := fmt.Sprintf("%s#castlingRand[%d]", spec, i)
-					if !found {
-						c.Fail(rule, key, t.Val.Pos(), "castlingRand[%d] is xor-ed without a test of a bit of the castling delta", i)
+					if dparam == nil {
 						continue
 					}
-					b, bc := constOf(bit)
-					switch {
-					case !sameValue(stripConv(w), delta, 0):
-						c.Fail(rule, key, t.Val.Pos(), "castlingRand[%d] is gated by a bit of a value other than the delta applied to Castles", i)
-					case !bc || b != i:
-						c.Fail(rule, key, t.Val.Pos(), "castlingRand[%d] is gated by bit %d of the castling delta: index and bit must agree", i, b)
-					case t.Xor == nil || (t.Enable != nil && !blockDomOrSame(t.Xor.Block(), app.Block())) || (t.Enable == nil && len(controllingConds(t.Xor.Block())) != 1):
-						c.Fail(rule, key, t.Val.Pos(), "castlingRand[%d] is toggled only on some paths (guarded by a condition other than its own delta bit): a move that changes right %d on the other paths leaves a stale key in the hash", i, i)
-					default:
-						c.Ok(rule, key, t.Val.Pos(), "castlingRand[%d] toggled under bit %d of the delta applied to Castles, on every path", i, b)
-						seen[i] = true
+					var ret *ssa.Return
+					allInstrs(callee, func(in ssa.Instruction) {
+						if r, ok := in.(*ssa.Return); ok {
+							ret = r
+						}
+					})
+					if ret == nil || len(ret.Results) != 1 {
+						continue
+					}
+					var inner []hashTerm
+					okInner := true
+					for _, it := range collectXorTerms(returnedValue(ret, 0)) {
+						switch it.Kind {
+						case "castling":
+							inner = append(inner, it)
+						case "base":
+						default:
+							okInner = false
+						}
+					}
+					if okInner && len(inner) > 0 && (t.Xor == nil || blockDomOrSame(t.Xor.Block(), app.Block())) {
+						castlingTerms(c, p, rule, spec, inner, dparam, nil, n, seen, 1)
 					}
 				}
 				for i := 0; i < n; i++ {
@@ -589,7 +592,20 @@ func c04R3(c *Ctx, p *Prog, rule string) {
 					why = "the old en-passant square is read after EnPassant has been overwritten"
 				}
 			}
-			conds := controllingConds(oldTerm.Xor.Block())
+			// conditions that also govern the append itself (e.g. the exit of a preceding loop) are not restrictions
+			var conds []condEdge
+			common := controllingConds(app.Block())
+			for _, ce := range controllingConds(oldTerm.Xor.Block()) {
+				shared := false
+				for _, cc := range common {
+					if cc.Cond == ce.Cond && cc.True == ce.True {
+						shared = true
+					}
+				}
+				if !shared {
+					conds = append(conds, ce)
+				}
+			}
 			if len(conds) != 1 || !conds[0].True || !isNeqZeroOfField(conds[0].Cond, "Board.EnPassant") {
 				okOld = false
 				why = "the removal is not guarded by exactly `EnPassant != 0`"
@@ -743,6 +759,18 @@ func c04R4(c *Ctx, p *Prog, rule string) {
 			mk := map[string]bool{}
 			for _, t := range collectXorTerms(apps[0].Val) {
 				mk[t.Kind] = true
+				// a helper of package board that returns accumulated keys
+				if call, ok := t.Val.(*ssa.Call); ok && t.Kind == "unknown" {
+					if callee := call.Call.StaticCallee(); callee != nil && isOwn(callee) && callee.Blocks != nil {
+						allInstrs(callee, func(in ssa.Instruction) {
+							if r, ok := in.(*ssa.Return); ok && len(r.Results) == 1 {
+								for _, it := range collectXorTerms(returnedValue(r, 0)) {
+									mk[it.Kind] = true
+								}
+							}
+						})
+					}
+				}
 			}
 			for _, k := range []string{"pieces", "stm", "castling", "ep"} {
 				c.Check(mk[k], rule, "MakeMove#"+k, mm.Pos(), "incremental update maintains the %s component that calculateHash includes", k)
@@ -805,4 +833,94 @@ func init() {
 			New: "\tif piece == King || piece == Rook {\n\t\thash ^= castlingRand[0] & hashEnable[(castlingChange>>0)&1]\n\t\thash ^= castlingRand[1] & hashEnable[(castlingChange>>1)&1]\n\t\thash ^= castlingRand[2] & hashEnable[(castlingChange>>2)&1]\n\t\thash ^= castlingRand[3] & hashEnable[(castlingChange>>3)&1]\n\t}\n",
 			Expect: "C04.R3/board.(*Board).MakeMove#castlingRand"},
 	)
+}
+
+// castlingTerms checks castlingRand terms against the castling delta. Terms may
+// use a constant index, or a loop index that visits the whole table; each must
+// be gated by the bit of the delta with the SAME index, on every path.
+func castlingTerms(c *Ctx, p *Prog, rule, spec string, terms []hashTerm, delta ssa.Value, app ssa.Instruction, n int, seen map[int64]bool, depth int) {
+	for _, t := range terms {
+		if len(t.Idx) != 1 {
+			c.Undec(rule, spec+"#castling-term", t.Val.Pos(), "castlingRand term with %d indices", len(t.Idx))
+			continue
+		}
+		idx := t.Idx[0]
+		i, isc := constOf(idx)
+		var loopN int64
+		if !isc {
+			var ok bool
+			loopN, ok = fullRangeIndex(idx)
+			if !ok {
+				c.Undec(rule, spec+"#castling-term", t.Val.Pos(), "castlingRand index is neither constant nor the index of a loop over the whole table")
+				continue
+			}
+		}
+		var w, bit ssa.Value
+		found := false
+		if t.Enable != nil {
+			w, bit, found = bitTest(t.Enable)
+		} else if t.Xor != nil {
+			for _, ce := range controllingConds(t.Xor.Block()) {
+				if !ce.True {
+					continue
+				}
+				if ww, bb, ok := bitTest(ce.Cond); ok {
+					w, bit, found = ww, bb, true
+				}
+			}
+		}
+		key := fmt.Sprintf("%s#castlingRand[%d]", spec, i)
+		if !isc {
+			key = spec + "#castlingRand[i]"
+		}
+		if !found {
+			c.Fail(rule, key, t.Val.Pos(), "a castlingRand key is xor-ed without a test of a bit of the castling delta")
+			continue
+		}
+		okBit := false
+		if isc {
+			b, bc := constOf(bit)
+			okBit = bc && b == i
+		} else {
+			okBit = sameValue(stripConv(bit), stripConv(idx), 0)
+		}
+		// on every path: masked form must run unconditionally (inside its loop); if-form only under its own bit test
+		uncond := t.Xor != nil
+		if uncond {
+			conds := controllingConds(t.Xor.Block())
+			extra := 0
+			for _, ce := range conds {
+				if _, _, isBT := bitTest(ce.Cond); isBT && t.Enable == nil {
+					continue
+				}
+				// the loop condition of a full-range loop is not a restriction
+				if bo, ok := ce.Cond.(*ssa.BinOp); ok && !isc && bo.Op == token.LSS && stripConv(bo.X) == stripConv(idx) {
+					continue
+				}
+				extra++
+			}
+			if app != nil && isc && !blockDomOrSame(t.Xor.Block(), app.Block()) && t.Enable != nil {
+				extra++
+			}
+			uncond = extra == 0
+		}
+		switch {
+		case !sameValue(stripConv(w), stripConv(delta), 0):
+			c.Fail(rule, key, t.Val.Pos(), "a castlingRand key is gated by a bit of a value other than the delta applied to Castles")
+		case !okBit:
+			c.Fail(rule, key, t.Val.Pos(), "a castlingRand key is gated by a different bit of the castling delta than its own index: index and bit must agree")
+		case !uncond:
+			c.Fail(rule, key, t.Val.Pos(), "a castlingRand key is toggled only on some paths (guarded by a condition other than its own delta bit): a move that changes that right on the other paths leaves a stale key in the hash")
+		default:
+			if isc {
+				c.Ok(rule, key, t.Val.Pos(), "castlingRand[%d] toggled under bit %d of the delta applied to Castles, on every path", i, i)
+				seen[i] = true
+			} else {
+				c.Ok(rule, key, t.Val.Pos(), "castlingRand[i] toggled under bit i of the delta for every i in 0..%d", loopN-1)
+				for k := int64(0); k < loopN; k++ {
+					seen[k] = true
+				}
+			}
+		}
+	}
 }
